@@ -356,7 +356,7 @@ func runC08(c *Ctx) {
 				}
 				nW++
 				ac, _ := callOf(st.Val)
-				if fn != create || ac == nil || ac.Call.StaticCallee() != assign {
+				if !w.partOf(fn, create) || ac == nil || ac.Call.StaticCallee() != assign {
 					bad = "binding.number is written at " + w.instrPos(in) + " from " + w.desc(st.Val) + ", not from assignChannelNumber in create"
 				}
 			})
